@@ -385,3 +385,39 @@ def _ambig(v, params):
         if not any(model.islink('/'.join(comps[:i])) and model.isdir('/'.join(comps[:i])) for i in range(1, len(comps))):
             return False
     return True
+
+
+@classifier('winseq')
+def _winseq(v, params):
+    """WINSEQ: in fnmatch mode under Windows rules a bracket expression tells `/` from `\\`: `[/]` matches only the
+    slash and a range such as `[A-b]` contains only the backslash, so the two separators are not interchangeable
+    in the name at a position matched by such a bracket."""
+    if v['kind'] not in ('sepclose', 'winunix'):
+        return False
+    inp = v['input']
+    if inp.get('mode') != 'fn' or 'W' not in inp.get('flags', ''):
+        return False
+    import re as _re
+    for m in _re.finditer(r'\[(!|\^)?((?:[^\]\\]|\\.)+)\]', inp['pattern']):
+        body = m.group(2)
+        cps = set()
+        i = 0
+        chars = []
+        while i < len(body):
+            if body[i] == '\\' and i + 1 < len(body):
+                chars.append(body[i + 1])
+                i += 2
+            else:
+                chars.append(body[i])
+                i += 1
+        j = 0
+        while j < len(chars):
+            if j + 2 < len(chars) and chars[j + 1] == '-':
+                cps.update(range(ord(chars[j]), ord(chars[j + 2]) + 1))
+                j += 3
+            else:
+                cps.add(ord(chars[j]))
+                j += 1
+        if (0x2f in cps) != (0x5c in cps):
+            return True
+    return False
